@@ -248,6 +248,11 @@ impl Analysis {
     pub fn acks_for(&self, op: usize) -> Vec<&InView> {
         self.inbound.iter().filter(|i| matches!(i.p.ack_for, Some((o, _)) if o == op)).collect()
     }
+    /// Everything injected was made available to the reader (it may not have been consumed if
+    /// the serving call returned) and the writer was not left blocked.
+    pub fn fully_delivered(&self) -> bool {
+        self.conns.iter().all(|c| c.delivered == c.inbound_len && !c.write_blocked_at_end)
+    }
     pub fn run_returned(&self) -> bool {
         self.conns.iter().any(|c| c.run_returned.is_some())
     }
